@@ -314,6 +314,8 @@ class World:
     sig, names, defaults = self._signature_src(d, with_self=is_cls)
     if d.get('twin_of'):
       # the very same function registered once more under another name, with its own allow / deny lists
+      if d['twin_of'] not in self.originals:
+        return 'owner of the shared function was not registered'
       obj = self.originals[d['twin_of']]
       allow = None if list(d['allow']) == ['*'] else list(d['allow'])
       try:
